@@ -12,7 +12,8 @@
    exactly once on every path; that part is explored by the correspondence run against the daemon's
    /proc/<pid>/fd (tools/props/c15.py). *)
 From Coq Require Import Permutation.
-From DV Require Import Lib.Base Fds.Fds Spec.FdsSpec Proofs.FdsBase Proofs.FdsStep Proofs.FdsHist Proofs.FdsMain Proofs.FdsFuel Fds.Write Proofs.FdsWrite.
+From DV Require Import Lib.Base Fds.Fds Spec.FdsSpec Proofs.FdsBase Proofs.FdsStep Proofs.FdsHist Proofs.FdsMain Proofs.FdsFuel Fds.Write Proofs.FdsWrite
+  Fds.MsgApi Proofs.FdsMsgApi Wire.Message Fds.ByteLoader Proofs.FdsByte Fds.Async Proofs.FdsAsync.
 Local Open Scope N_scope.
 
 (* The property as stated, over the model: for every history,
@@ -122,6 +123,93 @@ Theorem C15_fuel_suffices : forall cf now cs c ps fds led,
 Proof. exact step_never_out_of_fuel. Qed.
 Print Assumptions C15_fuel_suffices.
 
+(* ================================================================ deepening: the message API (coq/Fds/MsgApi.v) *)
+(* every descriptor the library duplicated (append_basic, copy, get_basic, get_args) is in exactly one place: closed by the
+   library, in a live message, or handed to the application; nothing is in two places or closed twice *)
+Theorem C15_api_conservation : forall evs,
+  let st := lreach evs in
+  Permutation (ls_dups st) (ls_closed st ++ lib_held st ++ ls_given st) /\
+  NoDup (ls_closed st ++ lib_held st ++ ls_given st).
+Proof. exact api_conservation. Qed.
+Print Assumptions C15_api_conservation.
+
+(* the process's descriptor table = the application's descriptors + what live messages hold; with every message released
+   (also through failed copies and failed get_args) only the application's descriptors are open *)
+Theorem C15_api_open_table : forall evs,
+  let st := lreach evs in
+  Permutation (open_fds st) (ls_app st ++ lib_held st) /\ NoDup (open_fds st) /\
+  (ls_msgs st = [] -> Permutation (open_fds st) (ls_app st)).
+Proof. exact api_open_table. Qed.
+Print Assumptions C15_api_open_table.
+
+(* the library closes only its own duplicates, never a descriptor the application owns or was handed *)
+Theorem C15_api_closes_only_own : forall evs f,
+  let st := lreach evs in
+  In f (ls_closed st) -> In f (ls_dups st) /\ ~ In f (ls_given st) /\ ~ In f (ls_app st) /\ ~ In f (open_fds st).
+Proof. exact api_closes_only_own. Qed.
+Print Assumptions C15_api_closes_only_own.
+
+(* the descriptors of a message denote, in order, the open files of the descriptors that were appended (also in copies) *)
+Theorem C15_api_identity : forall evs m,
+  let st := lreach evs in In m (ls_msgs st) -> files_of st (lm_fds m) = map Some (lm_src m).
+Proof. exact api_identity. Qed.
+Print Assumptions C15_api_identity.
+
+Theorem C15_api_get_same_file : forall st h idx st' g,
+  LInv st -> lstep st (LGet h idx true) = (st', RFd (Some g)) ->
+  exists m f, find_msg (ls_msgs st) h = Some m /\ nth_error (lm_fds m) (N.to_nat idx) = Some f /\
+              file_of (ls_open st') g = file_of (ls_open st) f /\ file_of (ls_open st) f <> None /\
+              In g (ls_app st') /\ ~ In g (open_fds st).
+Proof. exact api_get_same_file. Qed.
+Print Assumptions C15_api_get_same_file.
+
+Theorem C15_api_copy_same_files : forall st h h' st',
+  LInv st -> lstep st (LCopy h h' None) = (st', RBool true) ->
+  exists m m', find_msg (ls_msgs st) h = Some m /\ In m' (ls_msgs st') /\ lm_h m' = h' /\
+               lm_src m' = lm_src m /\ files_of st' (lm_fds m') = files_of st (lm_fds m) /\
+               (forall f, In f (lm_fds m') -> ~ In f (open_fds st)).
+Proof. exact api_copy_same_files. Qed.
+Print Assumptions C15_api_copy_same_files.
+
+(* ================================================================ deepening: the receive path on the real bytes (coq/Fds/ByteLoader.v) *)
+(* identities erased, the byte-level loader with its descriptor array IS the wire package's loader (C01 / C11 apply to it);
+   the descriptors of the queued messages in queue order followed by the pool are what they were plus what this read
+   brought, in that order; every queued message holds exactly m_nfds descriptors *)
+Theorem C15_byte_erasure : forall b chunk F, coherent b -> att_ok b ->
+  b_l (bfeed b chunk F) = feed (b_l b) chunk (nlen F) /\ coherent (bfeed b chunk F) /\ att_ok (bfeed b chunk F) /\
+  owned (bfeed b chunk F) = owned b ++ F.
+Proof. exact bfeed_spec. Qed.
+Print Assumptions C15_byte_erasure.
+
+(* any sequence of writes through the transport's read loop: received = closed at once (truncation) + attached + pool;
+   counts per message as announced; the pool within max_message_unix_fds *)
+Theorem C15_byte_conservation : forall maxfds cap neg maxsize ws,
+  let t := brun maxfds cap neg (bt_new maxsize) ws in
+  Permutation (t_recv t) (t_closed t ++ owned (t_b t)) /\ att_ok (t_b t) /\ coherent (t_b t) /\
+  nlen (b_pool (t_b t)) <= maxfds.
+Proof. intros. destruct (brun_inv maxfds cap neg ws _ (TInv_new maxfds maxsize)); auto. Qed.
+Print Assumptions C15_byte_conservation.
+
+Theorem C15_byte_no_fault : forall maxfds cap neg, 0 < cap -> forall t chunk F,
+  snd (bread_write maxfds cap neg t chunk F) <> BFault.
+Proof. intros. apply bread_fuel; auto. Qed.
+Print Assumptions C15_byte_no_fault.
+
+(* the read limit the connection model uses (Fds.get_buffer) is the byte-level one (Wire.max_to_read, C11_limit theorems) *)
+Theorem C15_read_limit_refines : forall l c, abs_loader l c -> max_to_read l = Some (get_buffer c).
+Proof. exact get_buffer_refines. Qed.
+Print Assumptions C15_read_limit_refines.
+
+(* ================================================================ deepening: no barriers (coq/Fds/Async.v) *)
+(* a peer that follows the protocol (one message piece per sendmsg, descriptors with the piece holding the first byte, as
+   many as announced, valid messages within max_message_unix_fds) and a receiver that reads whenever it likes: the stream
+   never goes bad, the kernel discards nothing, and the messages queued so far are exactly the first messages sent, each
+   with exactly the descriptors attached to it (as_sent = as_loaded ++ message in progress ++ what is still in the socket) *)
+Theorem C15_protocol_sender_any_schedule : forall cf now evs, 0 < read_cap cf -> forall a,
+  AInv cf a -> follows cf now a evs -> AInv cf (arun cf now a evs).
+Proof. exact protocol_sender_any_schedule. Qed.
+Print Assumptions C15_protocol_sender_any_schedule.
+
 (* ---------------------------------------------------------------- the hypotheses are satisfiable, the conclusions are not vacuous *)
 Example C15_ex_timeout_positive : 0 < fd_timeout cf0 /\ 0 < fd_timeout cf_default.
 Proof. split; reflexivity. Qed.
@@ -154,6 +242,39 @@ Example C15_ex_split :
   map wr_fds (fst (do_writing true 300000 8 [7; 9] 0 [212992; 0; 50000; 37008; 8])) = [[7; 9]; []; []; []] /\
   snd (do_writing true 300000 8 [7; 9] 0 [212992; 0; 50000; 37008; 8]) = 300008.
 Proof. vm_compute. split; reflexivity. Qed.
+
+
+(* message API: two descriptors appended, a copy that fails at its second dup (the first dup is closed again), a get_args
+   that hits a type mismatch after handing out both (both closed again), then everything released *)
+Definition api_h : list lev :=
+  [LOpen 1; LOpen 2; LNew 1; LAppend 1 0 true true; LAppend 1 1 true true; LCopy 1 2 (Some 1%nat);
+   LGetArgs 1 2 None true; LGet 1 1 true; LUnref 1].
+Example C15_ex_api :
+  ls_closed (lreach api_h) = [4; 5; 6; 2; 3] /\ ls_given (lreach api_h) = [7] /\ ls_app (lreach api_h) = [0; 1; 7] /\
+  open_fds (lreach api_h) = [0; 1; 7] /\ file_of (ls_open (lreach api_h)) 7 = Some 2 /\ ls_fault (lreach api_h) = false.
+Proof. vm_compute. repeat split. Qed.
+
+(* bytes: a 117-byte method call announcing two descriptors, read in two pieces with the descriptors on the first *)
+Definition ex_bytes : bytes :=
+  [108; 1; 1; 1; 13; 0; 0; 0; 7; 0; 0; 0; 88; 0; 0; 0; 1; 1; 111; 0; 2; 0; 0; 0; 47; 120; 0; 0; 0; 0; 0; 0; 2; 1; 115; 0; 3; 0; 0; 0;
+   120; 46; 73; 0; 0; 0; 0; 0; 3; 1; 115; 0; 2; 0; 0; 0; 84; 55; 0; 0; 0; 0; 0; 0; 6; 1; 115; 0; 6; 0; 0; 0; 120; 46; 67; 48; 48; 49; 0; 0;
+   8; 1; 103; 0; 3; 104; 104; 115; 0; 0; 0; 0; 0; 0; 0; 0; 9; 1; 117; 0; 2; 0; 0; 0; 0; 0; 0; 0; 1; 0; 0; 0; 0; 0; 0; 0; 0].
+Example C15_ex_bytes :
+  let t := brun 4 2048 true (bt_new 4194304) [(firstn 20 ex_bytes, [7; 9]); (skipn 20 ex_bytes, [])] in
+  b_att (t_b t) = [[7; 9]] /\ b_pool (t_b t) = [] /\ length (l_msgs (b_l (t_b t))) = 1%nat /\ l_corrupted (b_l (t_b t)) = false /\
+  b_pool (t_b (brun 4 2048 true (bt_new 4194304) [(firstn 20 ex_bytes, [7; 9])])) = [7; 9].
+Proof. vm_compute. repeat split. Qed.
+
+(* no barriers: the peer is two messages ahead (the second one split over two sendmsg calls), then the receiver reads *)
+Definition am1 : wmsg := mkW 100 true true 1 (DConn 1) false 1.
+Definition am2 : wmsg := mkW 3000 true true 2 (DConn 1) false 2.
+Definition a_sched : list aev :=
+  [AESend (PHead am1 100, [5]); AESend (PHead am2 1000, [6; 7]); AESend (PCont 2000, []); AERead; AERead; AERead; AERead].
+Example C15_ex_async :
+  follows cf0 0 (ainit true) a_sched /\
+  as_loaded (arun cf0 0 (ainit true) a_sched) = [(am1, [5]); (am2, [6; 7])] /\
+  as_bad (arun cf0 0 (ainit true) a_sched) = false /\ as_q (arun cf0 0 (ainit true) a_sched) = [].
+Proof. vm_compute. repeat split; auto; try discriminate; try (intro; discriminate). Qed.
 
 Example C15_ex_nodup : NoDup (sent_fds h_trunc).
 Proof. vm_compute. repeat constructor; simpl; intuition discriminate. Qed.
